@@ -766,10 +766,15 @@ def _add_lib_threads(x, ops, prop):
             # library's lines as well (not only at the steps of their event loops)
             op = {**op, "p": x.choice([0.02, 0.1, 0.3])}
         out.append(op)
-        if op["op"] in ("derive", "qmd", "md", "exec_sync") and x.random() < 0.08:
-            out.append({"op": "mt_lib", "p": x.choice([0.03, 0.1, 0.3]),
-                        "threads": [{"kind": x.choice(kinds), "stream": x.randrange(64),
-                                     "lam": x.randrange(64)} for _ in range(x.randint(2, 3))]})
+        if op["op"] in ("derive", "qmd", "md", "exec_sync") and x.random() < 0.12:
+            ths = [{"kind": x.choice(kinds), "stream": x.randrange(64), "lam": x.randrange(64)}
+                   for _ in range(x.randint(2, 3))]
+            if x.random() < 0.4:
+                # a pool of workers running the SAME step on several streams: the threads are
+                # in the same function at the same time
+                ths = [{**t, "kind": ths[0]["kind"], "lam": ths[0]["lam"]} for t in ths]
+            out.append({"op": "mt_lib", "p": x.choice([0.01, 0.03, 0.1, 0.3]), "stop": x.random() < 0.5,
+                        "frac": x.random(), "threads": ths})
     return out
 
 
@@ -2645,13 +2650,23 @@ class Forest:
             m = self.live[t["stream"] % len(self.live)]
             if kind == "derive":
                 pk, src = self.cfg["pool"][t["lam"] % len(self.cfg["pool"])]
-                jobs.append((kind, m, (pk, src), lambda m=m, pk=pk, src=src: getattr(m.stream, pk)(src)))
+                # the same derive made alone, just before: what the threaded one must equal
+                alone, ex0 = self.builder(lambda: getattr(m.stream, pk)(src))
+                exp = None if ex0 is not None else self.snap_of(alone)
+                del alone
+                jobs.append((kind, m, (pk, src, exp), lambda m=m, pk=pk, src=src: getattr(m.stream, pk)(src)))
             elif kind == "site":
                 k = t["lam"] % len(self.cfg["sites"])
                 site = self.cfg["sites"][k]
                 c = self.client
                 if (site.get("boom") or site.get("reent") is not None or site.get("cell")
-                        or not c.usable(k) or c.blocked_by(k) or c.none_bound(k)):
+                        or not c.usable(k) or c.none_bound(k)
+                        or (c.blocked_by(k) and site.get("arg_unused"))):
+                    continue
+                if c.blocked_by(k):
+                    # a refusal (ValueError) is due whoever else is using the library meanwhile
+                    jobs.append(("blocked", m, (k, site), lambda m=m, k=k: c.fns[k][0](
+                        next(x for x in self.live if x.root == m.root and x.made_by in ("root", "dataset")).stream)))
                     continue
                 root_m = next(x for x in self.live if x.root == m.root and x.made_by in ("root", "dataset"))
                 refs = None
@@ -2672,8 +2687,26 @@ class Forest:
                              lambda m=m: ast.dump(remove_empty_metadata(m.stream.query_ast))))
         if len(jobs) < 2:
             return
-        pr = Preempt(random.Random(mix(self.case["sched_seed"], "preempt", self.cur_id)), op["p"],
-                     func_adl_src().rstrip("/") + "/func_adl/")
+        rng = random.Random(mix(self.case["sched_seed"], "preempt", self.cur_id))
+        pr = Preempt(rng, op["p"], func_adl_src().rstrip("/") + "/func_adl/")
+        if op.get("stop"):
+            # one thread is parked at its line N while the others run to the end; N is uniform
+            # over the lines that call executes when it is made alone (counted now)
+            pr._preimport()
+            counts = []
+            for j in jobs:
+                cnt = Preempt(rng, 0.0, pr.prefix)
+                cnt.slots = []
+                sys.settrace(cnt._tracer)
+                try:
+                    j[3]()
+                except Exception:
+                    pass
+                finally:
+                    sys.settrace(None)
+                counts.append(cnt.points)
+            pr.stop_counts = counts
+            pr.stop_frac = op.get("frac", rng.random())
         n0 = self.exec_starts
         res = pr.run([j[3] for j in jobs])
         self.stat("fault_threads_inside_the_library")
@@ -2682,6 +2715,14 @@ class Forest:
         if self.exec_starts != n0 and "C12" in self.oracles:
             raise Violation("C12/build-exec", {"op": "threads"})
         for (kind, m, info, _), (st, val) in zip(jobs, res):
+            if kind == "blocked":
+                if st == "ok" and "C04" in self.oracles:
+                    raise Violation("C04/gate", {"site": info[1]["lam"], "got": "no exception",
+                                                 "blocked_by": self.client.blocked_by(info[0]),
+                                                 "what": "refused when called alone, let through while another thread was deriving"})
+                if st == "exc" and not isinstance(val, ValueError) and "C04" in self.oracles:
+                    raise Violation("C04/gate", {"site": info[1]["lam"], "got": type(val).__name__})
+                continue
             if st == "exc":
                 if kind == "derive" and isinstance(val, Exception):
                     self.stat("derive_raised")  # a designed refusal (type error ...) as when alone
@@ -2690,6 +2731,10 @@ class Forest:
                                 {"kind": kind, "raised": repr(val)[:200],
                                  "what": "a library call failed only because another thread was using the library"})
             if kind == "derive":
+                if info[2] is not None and self.snap_of(val) != info[2] and "C11" in self.oracles:
+                    raise Violation("C11/snapshot/threads", {
+                        "what": "a stream derived while another thread was deriving differs from the same derive made alone",
+                        "alone": info[2][0][:300], "with_threads": ast.dump(val.query_ast)[:300]})
                 m2 = self.add_stream(val, m.root, m, info[0], twin=None, lam_rec=None)
                 self.check_root(val, m2.root, "derive")
             elif kind == "site":
